@@ -248,7 +248,12 @@ pub fn check_end_state(case: &SchedCase, rr: &RunRec, stats: &mut C08Stats) -> V
         let next_head_last = refcodec::parse_file(&img[k + 1].1).recs.first().and_then(|(_, _, r)| if let Rec::State(s) = r { Some(s.last) } else { None }).flatten();
         let next_ok = next_head_last.map(|l| l <= purged).unwrap_or(true);
         if !has_above && next_ok {
-            out.push(v(case, "obsolete_chunk_not_deleted", format!("after the purge {:?} was flushed and the worker went idle, closed chunk {} is still on disk although it holds no entry above the purge point (next chunk's snapshot last={:?})", purged, img[k].0, next_head_last)));
+            // Known finding D15: removals postponed after a failed sync live only in the worker's memory; a restart forgets
+            // them and the chunk stays until the next purge. Matched only in histories with an injected sync failure AND a
+            // restart; anywhere else a chunk left behind is reported under the general signature.
+            let restart_after_sync_fault = rr.faults_fired > 0 && case.faults.iter().all(|f| f.kind == Sk::Sync) && case.hist.steps.iter().any(|s| matches!(s.op, crate::store::Op::Reopen(_)));
+            let sig = if restart_after_sync_fault { "obsolete_chunk_not_deleted:removal_postponed_by_a_failed_sync_then_forgotten_by_a_restart" } else { "obsolete_chunk_not_deleted" };
+            out.push(v(case, sig, format!("after the purge {:?} was flushed and the worker went idle, closed chunk {} is still on disk although it holds no entry above the purge point (next chunk's snapshot last={:?})", purged, img[k].0, next_head_last)));
             break;
         }
         // only the oldest remaining chunks can be obsolete
